@@ -236,8 +236,13 @@ impl<'a, D: DependencyProvider> Encoder<'a, D> {
             })
         {
             // If the dependencies are already available for the
-            // candidate, queue the candidate for processing.
-            if self.cache.are_dependencies_available_for(candidate) {
+            // candidate, queue the candidate for processing. A candidate that
+            // has already been assigned false is skipped: clauses can only be
+            // introduced for a solvable that can still be installed, and the
+            // candidate is encoded anyway if it is selected later on.
+            if self.cache.are_dependencies_available_for(candidate)
+                && self.state.decision_tracker.assigned_value(candidate_var) != Some(false)
+            {
                 self.queue_solvable(candidate.into())
             }
 
